@@ -4,6 +4,7 @@ pub trait Suite {
     fn run(&mut self, case: &Value) -> Value;
 }
 
+pub mod auth;
 pub mod codec;
 pub mod console;
 pub mod node;
@@ -11,6 +12,7 @@ pub mod node;
 pub fn make(name: &str) -> Option<Box<dyn Suite>> {
     match name {
         "codec" => Some(Box::new(codec::Codec::new())),
+        "auth" => Some(Box::new(auth::Auth::new())),
         "console" => Some(Box::new(console::Console::new())),
         _ => None,
     }
